@@ -17,6 +17,9 @@ use std::{
 };
 
 use msgq::MsgQueue;
+#[cfg(feature = "verif")]
+use crate::verif::sync::Mutex;
+#[cfg(not(feature = "verif"))]
 use parking_lot::Mutex;
 use tokio::io::AsyncRead;
 use tracing::{debug, trace};
